@@ -19,7 +19,7 @@ EXPLANATION = (
     "None handles), fires exactly once, cancels the timeout first and disarms the holder. K3 - every path of the loss "
     "closure: keepalive stop, subclass clean-up, IDLE, then exactly one scheduled onDisconnection(reason) when a handler "
     "is set and none otherwise; no path leaves by exception, no fired handle is cancelled. Orderings of CONNACK, expiry "
-    "and loss as behaviour are not explored.")
+    "and loss as behaviour are not explored. K0: the premises of the framing lemma (every rule of C03) hold, a necessary condition of anything said about inbound packets.")
 ASSUMPTIONS = ["a transport delivers no dataReceived after abortConnection()"]
 
 CONN = ("attr", SELF, "connReq")
